@@ -346,6 +346,40 @@ func checkC14Dec(t *Toks) string {
 			return fail("reencode-blech32", fmt.Sprintf("v%d", d.Version))
 		}
 	}
+	// confidential <-> unconfidential on whatever is recognised: script and key are preserved, the
+	// other form is itself recognised, and converting back returns the string
+	key := append([]byte{0x02}, lineRng(t.line).Bytes(32)...)
+	sc, _ := address.ToOutputScript(s)
+	if wantConf {
+		fc, err := address.FromConfidential(s)
+		if err != nil {
+			return fail("conf-unconf", "from-confidential-fails")
+		}
+		if len(fc.Script) == 0 || !bytes.Equal(fc.Script, sc) {
+			return fail("conf-unconf", "script-differs-from-ToOutputScript")
+		}
+		if ty2, err := address.DecodeType(fc.Address); err != nil {
+			return fail("conf-unconf", "unconfidential-form-not-recognised")
+		} else if c2, _ := address.IsConfidential(fc.Address); c2 {
+			return fail("conf-unconf", fmt.Sprintf("unconfidential-form-has-type-%d", ty2))
+		}
+		if sc2, err := address.ToOutputScript(fc.Address); err != nil || !bytes.Equal(sc2, sc) {
+			return fail("conf-unconf", "unconfidential-script-differs")
+		}
+		back, err := address.ToConfidential(&address.AddressInfo{Address: fc.Address, BlindingKey: cp(fc.BlindingKey)})
+		if err != nil || back != s {
+			return fail("conf-unconf", "conf-unconf-conf-is-not-the-input")
+		}
+	} else {
+		c, err := address.ToConfidential(&address.AddressInfo{Address: s, BlindingKey: cp(key)})
+		if err != nil {
+			return fail("conf-unconf", "to-confidential-fails")
+		}
+		fc, err := address.FromConfidential(c)
+		if err != nil || fc.Address != s || !bytes.Equal(fc.BlindingKey, key) || !bytes.Equal(fc.Script, sc) || len(sc) == 0 {
+			return fail("conf-unconf", "unconf-conf-unconf-is-not-the-input")
+		}
+	}
 	return "OK recognised"
 }
 
